@@ -17,11 +17,16 @@
 #include <vector>
 #include <type_traits>
 #include <algorithm>
+#include <complex>
+#include <utility>
 #include <dune/common/simd/loop.hh>
 #include <dune/common/simd/simd.hh>
 #include <dune/common/math.hh>
 #include "traits.hh"
 
+#ifndef C09_TYPEGROUP
+#define C09_TYPEGROUP 0
+#endif
 #ifndef C09_NESTED_SV_LOGIC
 #define C09_NESTED_SV_LOGIC 0
 #endif
@@ -34,6 +39,7 @@ template<class T> static T parse1(const std::string& s)
 {
   if constexpr (std::is_same_v<T,double>) { std::uint64_t b = std::stoull(s, nullptr, 16); double d; std::memcpy(&d, &b, 8); return d; }
   else if constexpr (std::is_same_v<T,float>) { std::uint32_t b = (std::uint32_t) std::stoul(s, nullptr, 16); float d; std::memcpy(&d, &b, 4); return d; }
+  else if constexpr (std::is_same_v<T,std::complex<double>>) { auto c = s.find(','); return std::complex<double>(parse1<double>(s.substr(0, c)), parse1<double>(s.substr(c + 1))); }
   else if constexpr (std::is_same_v<T,bool>) return s == "1";
   else if constexpr (std::is_unsigned_v<T>) return (T) std::stoull(s);
   else return (T) std::stoll(s);
@@ -48,6 +54,11 @@ static std::string show(unsigned x) { return std::to_string(x); }
 static std::string show(long x) { return std::to_string(x); }
 static std::string show(long long x) { return std::to_string(x); }
 static std::string show(unsigned long x) { return std::to_string(x); }
+static std::string show(unsigned long long x) { return std::to_string(x); }
+static std::string show(unsigned short x) { return std::to_string((unsigned) x); }
+static std::string show(unsigned char x) { return std::to_string((unsigned) x); }
+static std::string show(signed char x) { return std::to_string((int) x); }
+static std::string show(const std::complex<double>& z) { return show(z.real()) + "," + show(z.imag()); }
 template<class T, std::size_t S, std::size_t A>
 static std::string show(const LoopSIMD<T,S,A>& v)
 { std::string r; for (std::size_t i = 0; i < S; ++i) { if (i) r += " "; r += show(v[i]); } return r; }
@@ -76,6 +87,8 @@ static std::string run(const Tok& t)
   constexpr bool isint = std::is_integral_v<T> && !std::is_same_v<T,bool>;
   constexpr bool isfp = std::is_floating_point_v<T>;
   constexpr bool isbool = std::is_same_v<T,bool>;
+  constexpr bool iscplx = std::is_same_v<T,std::complex<double>>;
+  constexpr bool ordered = !iscplx;                  // < > <= >= && || ! ++ -- max min exist
   constexpr bool nested = []{ if constexpr (IsLoop<V>::value) return IsLoop<typename V::value_type>::value; else return false; }();
   std::string form = t.at(5); int k = 0;           // aliasing forms carry the aliased lane: avsk:<k> ...
   { auto c = form.find(':'); if (c != std::string::npos) { k = std::stoi(form.substr(c + 1)); form = form.substr(0, c); } }
@@ -99,6 +112,9 @@ static std::string run(const Tok& t)
   else if (form == "cond") { fill(m, t, pos); fill(b, t, pos); fill(c, t, pos); }
   else if (form == "condb") { sbool = t.at(pos++) == "1"; fill(b, t, pos); fill(c, t, pos); }
   else if (form == "bcast") fill(sa, t, pos);
+  else if (form == "copy" || form == "conv" || form == "bcastk" || form == "vsi" || form == "vsu" || form == "morself" || form == "mandself") { fill(a, t, pos); if (form == "vsi" || form == "vsu") cnt = std::stoi(t.at(pos++)); }
+  else if (form == "swap") { fill(a, t, pos); fill(b, t, pos); }
+  else if (form == "cond2") { fill(m, t, pos); fill(b, t, pos); fill(c, t, pos); }
   else return "UNKNOWN-FORM";
   const V a0 = a, b0 = b;
   auto unchanged = [&](bool aToo) { return ((!aToo || std::memcmp(&a, &a0, sizeof a) == 0) && std::memcmp(&b, &b0, sizeof b) == 0) ? "" : " (operand modified)"; };
@@ -110,6 +126,39 @@ static std::string run(const Tok& t)
   if (form == "condself") { b = Simd::cond(m, b, c); return show(b); }
   if (form == "condsame") { V r = Simd::cond(m, b, b); return show(r) + unchanged(true); }
   if (form == "condmask") { if constexpr (isbool && simd) { b = Simd::cond(b, b, c); return show(b); } else return "N/A"; }
+  // ---- special members and conversions (dimension 3): copy / move construction and assignment, self-assignment, swap, the explicit
+  //      converting constructor between alignments in both directions; every copy must have the source's lanes, the source stays as it was
+  if (form == "copy") {
+    if constexpr (simd) {
+      V c1(a); V tmp(a); V c2(std::move(tmp)); V c3{}; c3 = a; V tmp2(a); V c4{}; c4 = std::move(tmp2);
+      V& self = a; a = self;                                  // self-assignment
+      const V ca(a); V c5 = ca;                               // from a const object
+      bool same = show(c1) == show(c2) && show(c2) == show(c3) && show(c3) == show(c4) && show(c4) == show(c5);
+      return show(c1) + " ; " + show(a) + (same ? "" : " (copies differ)") + unchanged(true);
+    } else return "N/A";
+  }
+  if (form == "conv") {
+    if constexpr (simd && !std::is_same_v<V, V2>) {
+      V2 u(a);                                                // LoopSIMD<T,S,OA>(const LoopSIMD<T,S,A>&)
+      V back(u);                                              // and back
+      V viaCast = Simd::implCast<V>(u);
+      static_assert(std::is_same_v<Simd::Scalar<V2>, T> && Simd::lanes<V2>() == Simd::lanes<V>());
+      return show(u) + " ; " + show(back) + (show(viaCast) != show(back) ? " (implCast differs)" : "") + unchanged(true);
+    } else return "N/A";
+  }
+  if (form == "swap") { if constexpr (simd) { using std::swap; swap(a, b); return show(a) + " ; " + show(b); } else return "N/A"; }
+  // v = v[k]: assignment from a scalar that is a reference to the vector's own lane
+  if (form == "bcastk") { if constexpr (simd) { a = laneref(a, k); return show(a); } else return "N/A"; }
+  // cond with a mask of a DIFFERENT mask type (same scalar bool, same lane count): goes through implCast<Mask<V>>
+  if (form == "cond2") {
+    if constexpr (simd && !std::is_same_v<V, V2>) {
+      Simd::Mask<V2> m2{}; for (std::size_t l = 0; l < Simd::lanes<V>(); ++l) laneref(m2, l) = laneref(m, l);
+      V r = Simd::cond(m2, b, c); return show(r) + unchanged(true);
+    } else return "N/A";
+  }
+  // interface functions called with the SAME object in both argument positions
+  if (form == "morself") { if constexpr (simd) { M r = Simd::maskOr(a, a); return show(r) + unchanged(true); } else return "N/A"; }
+  if (form == "mandself") { if constexpr (simd) { M r = Simd::maskAnd(a, a); return show(r) + unchanged(true); } else return "N/A"; }
   if (form == "bcast") {
     if constexpr (simd) { V r = Simd::broadcast<V>(sa); V r2(sa); return show(r) + (std::memcmp(&r, &r2, sizeof(T) * Simd::lanes<V>()) ? " (ctor differs)" : ""); }
     else return show(sa);
@@ -133,7 +182,7 @@ static std::string run(const Tok& t)
     if (form == "anyf") return show(Simd::anyFalse(a));
     if (form == "allf") return show(Simd::allFalse(a));
   }
-  if constexpr (!isbool) {
+  if constexpr (!isbool && ordered) {
     if (form == "hmax") { T r = Simd::max(a); return show(r); }
     if (form == "hmin") { T r = Simd::min(a); return show(r); }
   }
@@ -147,7 +196,7 @@ static std::string run(const Tok& t)
   C09_UN("pos", +, V, !isbool)
   C09_UN("neg", -, V, !isbool)
   C09_UN("bnot", ~, V, isint)
-  C09_UN("lnot", !, M, true)
+  C09_UN("lnot", !, M, ordered)
 #undef C09_UN
 
 #define C09_BIN(NAME, SYM, RES, COND) C09_BIN2(NAME, SYM, RES, COND, true)
@@ -167,19 +216,19 @@ static std::string run(const Tok& t)
   C09_BIN("mul", *, V, !isbool)
   C09_BIN("div", /, V, !isbool)
   C09_BIN("mod", %, V, isint)
-  C09_BIN("band", &, V, !isfp)
-  C09_BIN("bor", |, V, !isfp)
-  C09_BIN("bxor", ^, V, !isfp)
-  C09_BIN("lt", <, M, true)
-  C09_BIN("gt", >, M, true)
-  C09_BIN("le", <=, M, true)
-  C09_BIN("ge", >=, M, true)
+  C09_BIN("band", &, V, !isfp && !iscplx)
+  C09_BIN("bor", |, V, !isfp && !iscplx)
+  C09_BIN("bxor", ^, V, !isfp && !iscplx)
+  C09_BIN("lt", <, M, ordered)
+  C09_BIN("gt", >, M, ordered)
+  C09_BIN("le", <=, M, ordered)
+  C09_BIN("ge", >=, M, ordered)
   C09_BIN("eq", ==, M, true)
   C09_BIN("ne", !=, M, true)
   // `scalar && nested-vector` did not compile while loop.hh declared the scalar-first overload with Simd::Mask<T> (F-C09-4):
   // exercised only when the compile probe harness/C09/probe_nested_sv.cc succeeds (-DC09_NESTED_SV_LOGIC=1)
-  C09_BIN2("land", &&, M, true, (!nested || C09_NESTED_SV_LOGIC))
-  C09_BIN2("lor", ||, M, true, (!nested || C09_NESTED_SV_LOGIC))
+  C09_BIN2("land", &&, M, ordered, (!nested || C09_NESTED_SV_LOGIC))
+  C09_BIN2("lor", ||, M, ordered, (!nested || C09_NESTED_SV_LOGIC))
 #undef C09_BIN
 #undef C09_BIN2
 
@@ -212,18 +261,40 @@ static std::string run(const Tok& t)
   C09_ASSIGN("mul", *=, !isbool)
   C09_ASSIGN("div", /=, !isbool)
   C09_ASSIGN("mod", %=, isint)
-  C09_ASSIGN("band", &=, !isfp)
-  C09_ASSIGN("bor", |=, !isfp)
-  C09_ASSIGN("bxor", ^=, !isfp)
+  C09_ASSIGN("band", &=, !isfp && !iscplx)
+  C09_ASSIGN("bor", |=, !isfp && !iscplx)
+  C09_ASSIGN("bxor", ^=, !isfp && !iscplx)
 #undef C09_ASSIGN
 
-  if constexpr (!isbool) {
+  if constexpr (simd && ordered && !isbool) {
+    if (form == "vsi") {          // v @ int  (U = int although Scalar<V> is T)
+      if (name == "lt") { M r = a < cnt; return show(r); }  if (name == "gt") { M r = a > cnt; return show(r); }
+      if (name == "le") { M r = a <= cnt; return show(r); } if (name == "ge") { M r = a >= cnt; return show(r); }
+      if (name == "eq") { M r = a == cnt; return show(r); } if (name == "ne") { M r = a != cnt; return show(r); }
+    }
+    if constexpr (isint && !nested) {
+      if (form == "vsu") {        // shift counts of other types: unsigned char scalar, LoopSIMD<unsigned char,S,..> vector
+        unsigned char uc = (unsigned char) cnt; LoopSIMD<unsigned char, Simd::lanes<V>()> w(uc);
+        if (name == "shl") { V r = a << uc; V r2 = a << w; return show(r) + " ; " + show(r2); }
+        if (name == "shr") { V r = a >> uc; V r2 = a >> w; return show(r) + " ; " + show(r2); }
+      }
+    }
+  }
+  if constexpr (isfp || iscplx) {
+    if (name == "real" && form == "u") { using std::real; auto r = real(a); return show(r) + unchanged(true); }
+    if (name == "imag" && form == "u") { using std::imag; auto r = imag(a); return show(r) + unchanged(true); }
+  }
+  if constexpr (!isbool && ordered) {
     if (name == "inc" && form == "u") { V r = a; ++r; return show(r); }        // scalar meaning of ++ (used by the plan)
     if (name == "dec" && form == "u") { V r = a; --r; return show(r); }
     if (name == "inc" && form == "pre") { V r = ++a; return show(r) + " ; " + show(a); }
     if (name == "dec" && form == "pre") { V r = --a; return show(r) + " ; " + show(a); }
     if (name == "inc" && form == "post") { V r = a++; return show(r) + " ; " + show(a); }
     if (name == "dec" && form == "post") { V r = a--; return show(r) + " ; " + show(a); }
+    if constexpr (simd) {
+      if (name == "max" && form == "vvself") { V r = Simd::max(a, a); return show(r) + unchanged(true); }
+      if (name == "min" && form == "vvself") { V r = Simd::min(a, a); return show(r) + unchanged(true); }
+    }
     if (name == "max" && form == "vv") { using std::max; V r = max(a, b); V r2 = Simd::max(a, b); return show(r) + (show(r2) != show(r) ? " (Simd::max differs)" : "") + unchanged(true); }
     if (name == "min" && form == "vv") { using std::min; V r = min(a, b); V r2 = Simd::min(a, b); return show(r) + (show(r2) != show(r) ? " (Simd::min differs)" : "") + unchanged(true); }
   }
@@ -291,6 +362,8 @@ int main(int argc, char** argv)
         const std::string& ty = t[1];
         int S = std::stoi(t[2]);
         if (S == C09_LANES && t[3] == "1") {
+          // two translation units per lane count (compile time): -DC09_TYPEGROUP=0 the original eight types, =1 the further ones
+#if C09_TYPEGROUP == 0
           if (ty == "int") r = by_lanes<int>(t);
           else if (ty == "unsigned") r = by_lanes<unsigned>(t);
           else if (ty == "long") r = by_lanes<long>(t);
@@ -299,9 +372,17 @@ int main(int argc, char** argv)
           else if (ty == "bool") r = by_lanes<bool>(t);
           else if (ty == "float") r = by_lanes<float>(t);
           else if (ty == "double") r = by_lanes<double>(t);
+#else
+          if (ty == "ulong") r = by_lanes<unsigned long>(t);
+          else if (ty == "llong") r = by_lanes<long long>(t);
+          else if (ty == "ushort") r = by_lanes<unsigned short>(t);
+          else if (ty == "uchar") r = by_lanes<unsigned char>(t);
+          else if (ty == "schar") r = by_lanes<signed char>(t);
+          else if (ty == "cdouble") r = by_lanes<std::complex<double>>(t);
+#endif
         }
-#if C09_LANES == 0
-        // nested and aligned variants live in the scalar-mode binary
+#if C09_LANES == 0 && C09_TYPEGROUP == 0
+        // nested and aligned variants live in the scalar-mode binary (type group 0)
         else if (S == 3 && t[3] == "2" && ty == "double") r = run<LoopSIMD<LoopSIMD<double,2>,3>>(t);
         else if (S == 3 && t[3] == "2" && ty == "int") r = run<LoopSIMD<LoopSIMD<int,2>,3>>(t);
         else if (S == 3 && t[3] == "2" && ty == "bool") r = run<LoopSIMD<LoopSIMD<bool,2>,3>>(t);
